@@ -45,6 +45,26 @@ enum OK { PUSH, EMPLACE, GROW_BY, GROW_BY_VAL, GROW_TO };
 const char* const kOp[] = {"push_back", "emplace_back", "grow_by", "grow_by(val)", "grow_to_at_least"};
 struct Plan { OK k; int arg; };
 struct Got { size_t b, e; uint64_t val; bool has_val; int thread; OK k; };
+
+// Hang triage for the fault modes.  Tolerated (oneTBB on the pinned tree behaves like this): a growth call waiting
+// for a *segment* that a failed peer never enabled, and grow_to_at_least waiting for anything.  Not tolerated: any
+// other growth call spinning on the segment-table *pointer* after the long-table allocation failed — the library
+// keeps a failure flag exactly so that these waiters throw instead.
+struct Peek : Vec { const void* table_word() const { return &this->my_segment_table; } bool table_failed() const { return this->my_segment_table_allocation_failed.v; }   /* raw read: no schedule point inside the triage */ };
+struct HangCtx { const Vec* v = nullptr; const void* table_word = nullptr; int nthreads = 0; int fid[8]; int op[8]; } g_hang;
+bool c11_hang_triage(char* why, size_t n) {
+    // (when the thread that owns the table extension threw before it got there, e.g. in an element constructor, the
+    // flag is not set and the pinned tree waits for ever as well: tolerated)
+    if (!static_cast<const Peek*>(g_hang.v)->table_failed()) return true;
+    for (int t = 0; t < g_hang.nthreads; ++t) {
+        if (g_hang.op[t] < 0 || g_hang.op[t] == GROW_TO || sim::fiber_done(g_hang.fid[t])) continue;
+        if (sim::last_point_addr(g_hang.fid[t]) == g_hang.table_word) {
+            snprintf(why, n, "T%d: %s neither returns nor throws: it spins on the segment-table pointer although the failed table allocation has been flagged", t, kOp[g_hang.op[t]]);
+            return false;
+        }
+    }
+    return true;
+}
 }
 
 SIM_SCENARIO(scen_c11, "c11", "C11", 1500000, 6000) {
@@ -91,12 +111,18 @@ SIM_SCENARIO(scen_c11, "c11", "C11", 1500000, 6000) {
         if (it == addr.end()) addr[i] = p;
         else SIM_CHECK(it->second == p, "oracle:element-moved", "address of element %zu changed from %p to %p during growth", i, (const void*)it->second, (const void*)p);
     };
+    g_hang = HangCtx(); g_hang.v = v; g_hang.table_word = static_cast<const Peek*>(v)->table_word(); g_hang.nthreads = nthreads;
+    for (int t = 0; t < 8; ++t) { g_hang.fid[t] = -1; g_hang.op[t] = -1; }
+    if (!strict) sim::set_hang_triage(c11_hang_triage);
     std::vector<std::function<void()>> fns;
     for (int t = 0; t < nthreads; ++t) {
         fns.push_back([&, t] {
             int seq = 0;
+            g_hang.fid[t] = sim::self();
+            struct OpDone { int t; ~OpDone() { g_hang.op[t] = -1; } } op_done{t};
             for (const Plan& p : plan[t]) {
                 uint64_t val = (uint64_t)(t + 1) * 1000 + (uint64_t)(++seq);
+                g_hang.op[t] = p.k;
                 try {
                     switch (p.k) {
                     case PUSH: { Elem x(val); auto it = v->push_back(x); size_t i = (size_t)(it - v->begin()); got.push_back({i, i + 1, val, true, t, p.k}); break; }
